@@ -290,9 +290,18 @@ static int gw_complete(int *prog, int len, int cap) {
     return len;
 }
 
+/* optional wall-time budget (GW_WALL_S): path enumeration may use 55% of it, the edge cover goes on until 85%, walks until 100%;
+   a phase cut short by the clock is reported as incomplete, never as an error */
+static time_t gw_t0; static long gw_wall_s; static int gw_time_cut, gw_paths_cut;
+static int gw_timeup(int pct) {
+    if (!gw_wall_s) return 0;
+    if (time(NULL) - gw_t0 >= gw_wall_s * pct / 100) { gw_time_cut = 1; return 1; }
+    return 0;
+}
 /* all maximal paths of length <= D from every initial state (every path <= D is a prefix of one) */
 static void gw_dfs(int st, int *prog, int depth, int D, uint64_t budget) {
-    if (gw_ordinal >= budget) return;
+    if (gw_ordinal >= budget || gw_paths_cut) return;
+    if ((gw_ordinal & 255) == 0 && gw_timeup(55)) { gw_paths_cut = 1; return; }
     gw_state *s = &gw_states[st];
     if (depth == D || s->nedges == 0) {
         if (depth > 0) {
@@ -318,7 +327,7 @@ static int gw_paths(int D, uint64_t budget) {
     for (int i = 0; i < gw_ninit; i++) gw_dfs(gw_inits[i], prog, 0, D, budget);
     gw_obs_mode = 0;
     free(prog);
-    return gw_ordinal - before < budget;   /* 1 = enumeration complete */
+    return gw_ordinal - before < budget && !gw_paths_cut;   /* 1 = enumeration complete */
 }
 
 /* edge cover: BFS tree from the inits gives a shortest prefix to every state; for every edge run prefix+edge (+ tail) */
@@ -345,6 +354,7 @@ static void gw_cover(int tail, unsigned seed) {
         int e = (e0 + start) % gw_nedges;
         if (gw_edge_seen[e]) continue;
         if (cover_max >= 0 && done++ >= cover_max) break;
+        if ((e0 & 63) == 0 && gw_timeup(85)) break;
         if (pred[gw_edges[e].src] == -2) continue;   /* unreachable */
         int n = 0, s = gw_edges[e].src;
         while (pred[s] >= 0) { rev[n++] = pred[s]; s = gw_edges[pred[s]].src; }
@@ -367,6 +377,7 @@ static void gw_walks(uint64_t N, int L, unsigned seed) {
     int *prog = malloc(sizeof(int) * (L + gw_nstates + 4));
     srand(seed);
     for (uint64_t w = 0; w < N; w++) {
+        if ((w & 63) == 0 && gw_timeup(100)) break;
         int cur = gw_inits[rand() % gw_ninit], len = 0;
         while (len < L && gw_states[cur].nedges > 0) {
             int k = gw_states[cur].first + rand() % gw_states[cur].nedges;
@@ -381,10 +392,10 @@ static void gw_walks(uint64_t N, int L, unsigned seed) {
 
 static void gw_print_stats(int complete) {
     printf("STATS {\"programs\": %llu, \"steps\": %llu, \"distinct\": %llu, \"nontrivial\": %llu, \"mismatches\": %llu, "
-           "\"edges\": %d, \"edges_covered\": %llu, \"states\": %d, \"paths_complete\": %s}\n",
+           "\"edges\": %d, \"edges_covered\": %llu, \"states\": %d, \"time_cut\": %d, \"paths_complete\": %s}\n",
            (unsigned long long)gw_programs, (unsigned long long)gw_steps, (unsigned long long)gw_distinct,
            (unsigned long long)gw_nontrivial, (unsigned long long)gw_mismatches, gw_nedges,
-           (unsigned long long)gw_edges_covered, gw_nstates, complete ? "true" : "false");
+           (unsigned long long)gw_edges_covered, gw_nstates, gw_time_cut, complete ? "true" : "false");
     fflush(stdout);
 }
 
@@ -487,6 +498,7 @@ static int gw_main(int argc, char **argv) {
     uint64_t walks = strtoull(argv[6], NULL, 10);
     int L = atoi(argv[7]);
     unsigned seed = (unsigned)strtoul(argv[8], NULL, 10);
+    gw_t0 = time(NULL); gw_wall_s = getenv("GW_WALL_S") ? atol(getenv("GW_WALL_S")) : 0;
     if (getenv("GW_FORK")) {
         /* supervisor: run the enumeration in a child; when the child dies on a mismatch/crash, resume after that program */
         uint64_t skip = 0;
